@@ -130,3 +130,39 @@ func VHOncePanic() {
 	vAssert(calls == 1, "no later caller's function is invoked after a panicking first invocation")
 	vCover("once panic done")
 }
+
+// VHOnceNil: a caller passing a nil function while the one invocation is in flight still
+// waits for it and shares its results (its own function is never needed).
+func VHOnceNil() {
+	which := vChoose("which", 3)
+	var o1 Once1[int]
+	var o2 Once2[int, int]
+	var o3 Once3[int, int, int]
+	x := vInt("x")
+	entered := make(chan int)
+	got := 0
+	vGo(func() {
+		switch which {
+		case 0:
+			o1.Do(func() int { entered <- 1; vYield(); return x })
+		case 1:
+			o2.Do(func() (int, int) { entered <- 1; vYield(); return x, x })
+		case 2:
+			o3.Do(func() (int, int, int) { entered <- 1; vYield(); return x, x, x })
+		}
+	})
+	vGo(func() {
+		<-entered // the invocation is running now
+		switch which {
+		case 0:
+			got = o1.Do(nil)
+		case 1:
+			got, _ = o2.Do(nil)
+		case 2:
+			got, _, _ = o3.Do(nil)
+		}
+		vAssert(got == x, "a Do call made while the invocation is in flight returns that invocation's results, whatever function it passed")
+	})
+	vAssert(vWait(), "both Do calls return")
+	vCover("once nil done")
+}
